@@ -167,22 +167,30 @@ structure Step where
   controls : List Nat -- ones present before and after, ascending
   deriving Repr, DecidableEq, Inhabited
 
+/-- first 1 above `mx` (`ones[ones > max_index][0]`). -/
+def nearestOne (bs : List Bool) (mx : Nat) : Option Nat :=
+  ((List.range bs.length).filter (fun i => bs.getD i false && decide (mx < i))).head?
+
+/-- last 0 above `mx` and below the nearest 1 (`farthest_zero`). -/
+def farthestZero (bs : List Bool) (mx : Nat) (nearest : Option Nat) : Option Nat :=
+  ((List.range bs.length).filter (fun i => !bs.getD i false && decide (mx < i) &&
+      (match nearest with | some no => decide (i < no) | none => true))).getLast?
+
+/-- the new bit string of `_get_next_bistring`, `mx = max(markers)`. -/
+def nextBits (bs : List Bool) (mx : Nat) : List Bool :=
+  match bs.getD mx false, nearestOne bs mx with
+  | false, some no => setBit (setBit bs mx true) no false
+  | _, near =>
+    match farthestZero bs mx near with
+    | some fz => setBit (setBit bs mx false) fz true
+    | none => bs   -- python raises IndexError here; never reached from a valid start
+
 /-- `_get_next_bistring` (markers non-empty). -/
 def nextString (bs : List Bool) (markers : List Nat) : Step :=
   let n := bs.length
   let mx := listMax markers
   let ones := (List.range n).filter (fun i => bs.getD i false)
-  let zeros := (List.range n).filter (fun i => !bs.getD i false)
-  let nearest := (ones.filter (fun i => mx < i)).head?
-  let new :=
-    match bs.getD mx false, nearest with
-    | false, some no => setBit (setBit bs mx true) no false
-    | _, _ =>
-      let cand := (zeros.filter (fun i => mx < i)).filter
-        (fun i => match nearest with | some no => i < no | none => true)
-      match cand.getLast? with
-      | some fz => setBit (setBit bs mx false) fz true
-      | none => bs   -- python raises IndexError here; never reached from a valid start
+  let new := nextBits bs mx
   let lastRun := getMarkers new true
   let ms := (markers.filter (· ≠ mx)) ++
     ((List.range n).filter (fun i => mx < i ∧ !lastRun.contains i ∧ !markers.contains i))
@@ -211,7 +219,7 @@ def ehrlich (init : List Bool) : List Step :=
 
 /-- the strings as python prints them (`string[::-1]` joined). -/
 def showBits (bs : List Bool) : String :=
-  String.mk (bs.reverse.map (fun b => if b then '1' else '0'))
+  String.ofList (bs.reverse.map (fun b => if b then '1' else '0'))
 
 def ehrlichStrings (init : List Bool) : List (List Bool) :=
   init :: (ehrlich init).map (·.bits)
